@@ -25,8 +25,9 @@ class Contract:
     def __init__(self, qual, params=None, requires=(), ensures=(), raises=None, modifies=(), returns=None, let=None,
                  inline=False, spec=None, drops=(), props=(), name=None, exc_ensures=None, hints=(),
                  use_at_calls=True, expect_raise_paths=None, path_assumes=(), trusted=False, note=None,
-                 allow_other_exc=(), overrides=None, max_paths=400, timeout_s=None, kwargs_call=None, pure=False, varargs=None, harness=None, module=None, native_patches=None, loop=None):
+                 allow_other_exc=(), overrides=None, max_paths=400, timeout_s=None, kwargs_call=None, pure=False, varargs=None, harness=None, module=None, native_patches=None, loop=None, loops=None):
         self.loop = loop
+        self.loops = loops or {}
         self.native_patches = native_patches or {}
         self.harness = harness
         self.module = module
@@ -56,6 +57,55 @@ class Contract:
         self.max_paths = max_paths
         self.timeout_s = timeout_s
         self.kwargs_call = kwargs_call
+
+
+class LoopCut(Exception):
+    """end of the inductive-step path of a loop cut at its invariant"""
+
+
+class LoopSpec:
+    """while loop cut at an invariant: establish, havoc the assigned locals, assume, then either one arbitrary
+    iteration (preservation, path ends) or exit (invariant and negated condition known)"""
+
+    def __init__(self, engine, c, k, spec):
+        self.engine, self.c, self.k, self.spec = engine, c, k, spec
+
+    def clauses(self):
+        return [(f'inv{n}', x) if isinstance(x, str) else x for n, x in enumerate(self.spec['invariant'])]
+
+    def env_for(self, it, env):
+        m = env.mod
+        se = self.engine.spec_env(it, self.c, m, {})
+        return Env(m, env, se.vars)
+
+    def eval(self, it, ex, env):
+        saved = it.old_env
+        it.old_env = self.engine.cur_old_env
+        try:
+            return self.engine.eval_clause(it, ex, self.env_for(it, env))
+        finally:
+            it.old_env = saved
+
+    def run_while(self, it, st, env):
+        p = it.p
+        name = f'{self.c.name}#loop{self.k}'
+        for nm, ex in self.clauses():
+            p.oblige(f'{name}-invariant-established:{nm}', self.eval(it, ex, env), kind='ensures', where=ex)
+        assigned = sorted({n.id for s in st.body for n in ast.walk(s) if isinstance(n, ast.Name) and isinstance(n.ctx, ast.Store)})
+        for nm in assigned:
+            if nm in env.vars:
+                env.vars[nm] = self.engine.havoc_like(p, env.vars[nm], f'loop_{nm}')
+        for nm, ex in self.clauses():
+            p.assume(self.eval(it, ex, env))
+        cnd = it.eval(st.test, env)
+        if p.truth(cnd):
+            it.exec_block(st.body, env)
+            for nm, ex in self.clauses():
+                p.oblige(f'{name}-invariant-preserved:{nm}', self.eval(it, ex, env), kind='ensures', where=ex)
+            raise LoopCut()
+        it.exec_block(st.orelse, env)
+
+    run = None
 
 
 class VCResult:
@@ -134,6 +184,14 @@ class Engine:
         self._alts.append(list(decisions))
 
     def loop_spec(self, qual, node):
+        c = self.current
+        if c is None or not c.loops or qual != c.qual or getattr(self, 'cur_fnode', None) is None:
+            return None
+        loops = [n for n in ast.walk(self.cur_fnode) if isinstance(n, (ast.For, ast.While))]
+        loops.sort(key=lambda n: (n.lineno, n.col_offset))
+        for k, n in enumerate(loops):
+            if n is node and k in c.loops:
+                return LoopSpec(self, c, k, c.loops[k])
         return None
 
     def callee_contract(self, qual, it):
@@ -201,6 +259,7 @@ class Engine:
                 return memo[id(v)]
             s = SList(None, v.n, v.label)
             s.fn = v.fn
+            s.enum = getattr(v, 'enum', None)
             memo[id(v)] = s
             memo.setdefault('_pairs', []).append((v, s))
             return s
@@ -551,6 +610,8 @@ class Engine:
         if c.varargs:
             pos = list(args.pop(c.varargs))
         fn = Func(node, Env(m), m, self_obj=self_obj, cls=ci, name=c.qual)
+        self.cur_fnode = node
+        self.cur_old_env = old_env
         try:
             result = it.call_func(fn, pos, args)
         except PyExc as e:
@@ -558,9 +619,12 @@ class Engine:
             exc = e
         except Infeasible:
             return None
+        except LoopCut:
+            outcome = 'loop-step'
         # post-state obligations
         env.vars['result'] = result
         it.old_env = old_env
+        it.old_to_live = old_to_live
         try:
             for nm, ex in c.let.items():
                 try:
@@ -582,6 +646,8 @@ class Engine:
                 for nm, ex in c.ensures:
                     path.oblige(f'{c.name}#{nm}', self.eval_clause(it, ex, env), kind='ensures', where=ex)
                 self.frame_obligations(it, c, path, env, old_env, pairs, old_to_live)
+            elif outcome == 'loop-step':
+                pass
             else:
                 en = exc.cls.name
                 names = (en,) + tuple(exc.cls.bases)
@@ -609,7 +675,7 @@ class Engine:
             it.old_env = None
         for ob in path.obligs:
             vcs.append(self.discharge(path, ob, pid))
-        summ = {'id': pid, 'outcome': outcome if outcome == 'return' else f'raise {exc.cls.name}',
+        summ = {'id': pid, 'outcome': outcome if outcome != 'raise' else f'raise {exc.cls.name}',
                 'decisions': ''.join('T' if d else 'F' for d in path.decisions), 'obligations': len(path.obligs)}
         return {'summary': summ, 'vcs': vcs, 'dropped': [(a, b, w) for a, b, w in path.dropped]}
 
@@ -638,7 +704,13 @@ class Engine:
                         path.oblige(f'{c.name}#frame:{old.label or old.cls}.{k}', False, kind='frame',
                                     where=f'field {k} created/deleted outside the modifies clause')
                         continue
-                    cls = self.veq(it, old.fields[k], live.fields[k], old_to_live)
+                    ov, lv = old.fields[k], live.fields[k]
+                    if isinstance(ov, (list, dict, SList)) and isinstance(lv, (list, dict, SList)):
+                        # the field must still refer to the same container object; the container's contents are a
+                        # separate frame location ('expr[*]')
+                        cls = [old_to_live.get(id(ov)) is lv]
+                    else:
+                        cls = self.veq(it, ov, lv, old_to_live)
                     for n, g in enumerate(cls):
                         if g is True:
                             continue
